@@ -48,8 +48,18 @@ def run(ctx):
         bb, t = pw[0]
         flag = t["args"][1]
         fl = flag["p"]["l"] if flag["k"] in ("copy", "move") and not flag["p"]["proj"] else None
+        # the constant may travel through named locals / temporaries: track every local of the copy chain
+        chain = []
+        cur = fl
+        while cur is not None and cur not in chain:
+            chain.append(cur)
+            d = [x for x in wp.defs().get(cur, []) if x[2]["k"] != "partial"]
+            nxt = None
+            if len(d) == 1 and d[0][2]["k"] == "use" and d[0][2]["op"]["k"] in ("copy", "move") and not d[0][2]["op"]["p"]["proj"]:
+                nxt = d[0][2]["op"]["p"]["l"]
+            cur = nxt
         ex = M.Explore(wp, assume={("param", 2, wp.local_name(2)): blockval, self_field("child_state"): CHILD_STATE["Running"]},
-                       tracked=[fl] if fl is not None else [])
+                       tracked=chain)
         vals = set()
         names = set()
         if fl is None:
@@ -58,10 +68,11 @@ def run(ctx):
             names.add(tt[2] if tt[0] == "const" else "?")
         else:
             for st in ex.state_at.get(bb, ()):
-                vals.add(dict(st).get(fl))
+                # value of the operand at the call itself: after the statements of the call's own block
+                vals.add(dict(ex._step_state(bb, st)).get(fl))
             for b in ex.blocks:
                 for s in wp.blocks[b]["stmts"]:
-                    if s["k"] == "assign" and not s["p"]["proj"] and s["p"]["l"] == fl and s["r"]["k"] == "use" and s["r"]["op"]["k"] == "const":
+                    if s["k"] == "assign" and not s["p"]["proj"] and s["p"]["l"] in chain and s["r"]["k"] == "use" and s["r"]["op"]["k"] == "const":
                         names.add(s["r"]["op"].get("name"))
         ok = vals == {want_val} and names <= set(want_name) and len(names) == 1
         ctx.ob("R11.1", "flags[block=%d]" % blockval, ok, wp.loc(bb),
